@@ -461,10 +461,17 @@ def eval_seeded(n, ctx, seed, forget=False):
     if t == "subselect":
         spec = n[1]
         if set(spec) - {"where", "proj", "distinct", "star", "orderby", "limit", "offset"} or any(not isinstance(p, str) for p in spec.get("proj") or []): raise Latitude("sub-select with modifiers")
-        if spec.get("distinct") or spec.get("limit") is not None or spec.get("offset") is not None:
-            # DISTINCT and slices are where such an engine stops handing bindings down: the sub-select is evaluated on its own and joined
-            return join([seed], eval_pattern(n, ctx), ctx)
         keep = set(select_vars(spec)) | set(seed)
+        if spec.get("distinct") or spec.get("limit") is not None or spec.get("offset") is not None:
+            # DISTINCT and slices are taken over what the sub-select finds under the bindings it is handed (the caller decides which: see "group")
+            sols = [{k: v for k, v in m.items() if k in keep} for m in eval_seeded(spec["where"], ctx, seed, forget)]
+            if spec.get("distinct"):
+                seen = set(); d = []
+                for m in sols:
+                    k = frozenset((a, rkey(b)) for a, b in m.items())
+                    if k not in seen: seen.add(k); d.append(m)
+                sols = d
+            return apply_slice(spec, sols, ctx)
         sols = [{k: v for k, v in m.items() if k in keep} for m in eval_seeded(spec["where"], ctx, seed, forget)]
         if spec.get("distinct"):
             seen = set(); d = []
@@ -528,6 +535,10 @@ def eval_seeded(n, ctx, seed, forget=False):
                         m = dict(a); m[e[2]] = ev(e[1], view, ctx); out.append(m)
                     except Err:
                         out.append(a)
+            elif k == "subselect" and (e[1].get("distinct") or e[1].get("limit") is not None or e[1].get("offset") is not None):
+                # such an engine does not hand the left solutions of the same group into a DISTINCT or sliced sub-select (it joins afterwards),
+                # but whatever was pushed into the group as a whole still reaches it
+                out = join(G, eval_seeded(e, ctx, seed, forget), ctx)
             else:
                 for a in G: out += eval_seeded(e, ctx, a, forget)
             G = out
